@@ -12,7 +12,7 @@ PROP = {'areas': [{'also': ['C01:monitor:104'],
             'extra': ['100'],
             'only_prop': 'C04',
             'quick': 12000,
-            'thorough': 1000000,
+            'thorough': 2000000,
             'tie_fields': ['out', 'done', 'ops', 'rq', 'uq', 'hq', 'ppub', 'cur']}],
  'coq_target': 'Properties/C04.vo',
  'modelled': 'protocol.rs ProtocolState: handle_user_event, handle_network_event (opened / closed / incoming data / write completion), service '
